@@ -243,7 +243,8 @@ def gen_config(cs, tier='quick', force=None):
     else:
         tab = [min(s * (2 ** i), cap) for i in range(11)]
     c['delay_table'] = tab
-    cb = [0.0, 1e-4, 1e-2, 1.0][cs.choose(4, 'cscale')]
+    # duration of one simulator run: from nothing to ten minutes (a slow iteration is a legal schedule, not a fault)
+    cb = [0.0, 1e-4, 1e-2, 1.0, 30.0, 600.0][cs.choose(6, 'cscale')]
     c['compute_table'] = [cb * (1 + j / 8) for j in range(8)] if cs.choose(2, 'cjit') else [cb]
     sp = {}
     if cs.choose(3, 'speeds') == 2:
